@@ -184,7 +184,7 @@ HL = BASE + '.handle_lease'
 
 
 @harness('c14.handle_lease', ['C14'], functions=[HL, LEASE + 'DefinedLease.__init__', LEASE + 'DefinedLease._is_request_allowed'],
-         replay='c14_handle_lease',
+         replay='c14_handle_lease', fallback=r'^c14\.history\.bounded',
          assumptions=['the ghost clock does not advance inside handle_lease (one atomic segment, no await that suspends)'])
 def handle_lease(E):
     E.import_module('datetime')
